@@ -132,3 +132,18 @@ package module
 //@   trusted
 //@   pure
 //@   opt ghost:pcm_ok err == nil
+
+// C32: an address value is identified by its byte form; the 20-byte id is a function of it
+//@ property C32
+//@ smt all (declare-fun addr_key (Iface) Str)
+//@ axiom addr_key_id int : forall a iface, b iface :: {addr_key(a), addr_key(b)} addr_key(a) == addr_key(b) ==> addr_id(a) == addr_id(b)
+//@ func (a Address) Bytes() (r)
+//@   iface
+//@   trusted
+//@   pure
+//@   ensures str(r) == addr_key(a)
+//@ func (a Address) ID() (r)
+//@   iface
+//@   trusted
+//@   pure
+//@   ensures seq(r) == addr_id(a)
